@@ -460,11 +460,12 @@ func buildView(view string, n int, set []setf, raw []rawf, rng *rand.Rand, tab *
 // ---- the field table (from the specification) ---------------------------------------------------
 
 type table struct {
-	rows   map[string]*frow // "View.Getter"
-	byView map[string][]*frow
-	base   map[string]*metaBase
-	uncomp map[string]bool
-	derive map[string]bool
+	rows     map[string]*frow // "View.Getter"
+	byView   map[string][]*frow
+	base     map[string]*metaBase
+	uncomp   map[string]bool
+	derive   map[string]bool
+	classify [][2]string // spec: ClassifyingFields
 }
 
 func (t *table) row(view, g string) *frow { return t.rows[view+"."+g] }
